@@ -16,6 +16,7 @@ fn short_texts(vec: &Value, t: &tables::Tables) -> Vec<String> {
             let mut s = format!("{} > {}", join(&p["inps"]), join(&p["outs"]));
             let ctxs = p["ctxs"].as_array().unwrap();
             if !ctxs.is_empty() { s += &format!(" / {}", ctxs.iter().map(|e| rules::env_text(e, t)).collect::<Vec<_>>().join(", ")); }
+            if let Some(excs) = p["excs"].as_array() { if !excs.is_empty() { s += &format!(" | {}", excs.iter().map(|e| rules::env_text(e, t)).collect::<Vec<_>>().join(", ")); } }
             vec![s]
         }
         "special-env" => { let p = &vec["parts"]; vec![format!("{} > {} / _,{}", rules::elems_text(&p["inp"], t), rules::elems_text(&p["out"], t), rules::elems_text(&p["x"], t))] }
